@@ -65,6 +65,7 @@ bool class_in_scope(const std::string &prop, const std::string &cls, int mode, b
 // abstract-state coverage (distinct (state, op, outcome) triples), accumulated across runs of a worker
 long coverage_states();
 long coverage_triples();
+long coverage_fit_triples();  // distinct (c <= 48, position mod c, instruction length) placed in fitting mode
 void coverage_note(uint64_t state_key, uint64_t triple_key);
 // C12 transition coverage: (state 0..11, setter 0..4, value class 0..5)
 long c12_transitions_covered();
